@@ -3,12 +3,14 @@
 //!
 //! Exhaustive enumeration of closed small domains (DESIGN.md "### C04"):
 //!
-//! * labels: all octet strings of length <= 2 (thorough: <= 3) over the 12
-//!   octets {00 - . @ A Z [ ` a z { FF} plus 12 labels of length 62/63;
+//! * labels: all octet strings of length <= 2 (thorough: <= 3) over the 14
+//!   octets {00 SP - . @ A Z [ _ ` a z { FF} plus 12 labels of length 62/63;
 //! * character strings: the same strings plus 3 of length 254/255, in three
 //!   representations (Vec, &[u8], unsized);
 //! * names: all sequences of <= 3 (thorough: <= 4) labels over {a, A, b,
-//!   "a.b" as ONE label, ab}, each as flat `Name<Vec>`, `ParsedName`
+//!   "a.b" as ONE label, ab} and all sequences of <= 2 (thorough: <= 3) labels
+//!   over that menu plus {"a\\001b", "\\001a"} (labels containing length-octet
+//!   look-alikes), each as flat `Name<Vec>`, `ParsedName`
 //!   uncompressed in a message, `ParsedName` compressed at every suffix
 //!   (plus a pointer chain and a double pointer), `Chain<RelativeName, Name>`
 //!   split at every boundary;
@@ -18,8 +20,8 @@
 //!   `AllRecordData` and `ZoneRecordData`, flat and parsed;
 //! * records: RDATA x 3 owners (a., A., b.a.) x 2 classes x 2 TTLs, flat and
 //!   parsed from a message;
-//! * thorough only: per record type all ordered pairs of the rgen *quick*
-//!   menu product (53 564 values).
+//! * per record type all ordered pairs of the rgen *quick* menu product
+//!   (thorough: all 53 564 values; quick: the types with <= 1000 values).
 //!
 //! All ordered pairs everywhere; all triples where the domain is small
 //! enough, and everywhere the exact rank test for "is a total preorder".
@@ -52,7 +54,7 @@ type PRd<'a> = AllRecordData<&'a [u8], ParsedName<&'a [u8]>>;
 type ZRd = ZoneRecordData<Vec<u8>, Nm>;
 type PZRd<'a> = ZoneRecordData<&'a [u8], ParsedName<&'a [u8]>>;
 
-const ALPHA: [u8; 12] = [0x00, b'-', b'.', b'@', b'A', b'Z', b'[', b'`', b'a', b'z', b'{', 0xFF];
+const ALPHA: [u8; 14] = [0x00, b' ', b'-', b'.', b'@', b'A', b'Z', b'[', b'_', b'`', b'a', b'z', b'{', 0xFF];
 
 //------------ recording hasher ------------------------------------------------
 
@@ -217,7 +219,7 @@ fn lc(b: &[u8]) -> Vec<u8> {
 
 fn mix(dom: u64, i: usize, j: usize) -> u64 {
     let mut h = dom ^ 0xcbf29ce484222325;
-    for v in [i as u64, j as u64] {
+    for v in [dom.wrapping_mul(0x9E37_79B9_7F4A_7C15), i as u64, j as u64] {
         h = (h ^ v).wrapping_mul(0x100000001b3);
         h ^= h >> 29;
     }
@@ -749,13 +751,21 @@ fn dom_charstrs(env: &Env, only: Option<&[usize]>) {
 
 //------------ names -----------------------------------------------------------------
 
-fn name_label_menu() -> Vec<Vec<u8>> {
-    vec![b"a".to_vec(), b"A".to_vec(), b"b".to_vec(), b"a.b".to_vec(), b"ab".to_vec()]
+/// The DESIGN menu (5 labels); the extended menu adds two labels whose
+/// content contains length-octet look-alikes: the wire form of `a\001b.`
+/// ends in the wire form of `b.`, that of `\001a.` in the wire form of `a.`.
+fn name_label_menu(menu: usize) -> Vec<Vec<u8>> {
+    let mut v = vec![b"a".to_vec(), b"A".to_vec(), b"b".to_vec(), b"a.b".to_vec(), b"ab".to_vec()];
+    if menu > 5 {
+        v.push(b"a\x01b".to_vec());
+        v.push(b"\x01a".to_vec());
+    }
+    v
 }
 
 /// All label sequences of length <= depth over the menu.
-fn name_items(depth: usize) -> Vec<Vec<Vec<u8>>> {
-    let menu = name_label_menu();
+fn name_items(depth: usize, menu: usize) -> Vec<Vec<Vec<u8>>> {
+    let menu = name_label_menu(menu);
     let mut out = Vec::new();
     let mut buf: Vec<Vec<u8>> = Vec::new();
     for n in 0..=depth {
@@ -918,15 +928,15 @@ fn observe_names(x: &Rep, y: &Rep) -> NameObs {
     NameObs { name_eq, name_cmp, composed, lc_composed, ops, ord }
 }
 
-fn dom_names(env: &Env, depth: usize, rep_triples: bool, dom_id: u64, only: Option<&[usize]>) {
-    let names = name_items(depth);
+fn dom_names(env: &Env, depth: usize, menu: usize, rep_triples: bool, dom_id: u64, only: Option<&[usize]>) {
+    let names = name_items(depth, menu);
     let specs_all: Vec<RepSpec> = names.iter().enumerate().flat_map(|(i, l)| rep_specs(i, l)).collect();
     let specs = restrict(specs_all, only);
     let n = specs.len();
     let dom = "name";
     let desc = |i: usize| {
         let s = &specs[i].1;
-        json!({"index": specs[i].0, "depth": depth, "labels": names[s.name].iter().map(|l| String::from_utf8_lossy(l).to_string()).collect::<Vec<_>>(), "representation": s.kind, "message": hex(&s.msg), "pos": s.pos})
+        json!({"index": specs[i].0, "depth": depth, "menu": menu, "labels_hex": names[s.name].iter().map(|l| hex(l)).collect::<Vec<_>>(), "labels": names[s.name].iter().map(|l| String::from_utf8_lossy(l).to_string()).collect::<Vec<_>>(), "representation": s.kind, "message": hex(&s.msg), "pos": s.pos})
     };
     // build the library values
     let mut reps: Vec<Rep> = Vec::with_capacity(n);
@@ -959,12 +969,12 @@ fn dom_names(env: &Env, depth: usize, rep_triples: bool, dom_id: u64, only: Opti
             }
         }
     }
-    *env.stats.counters.lock().unwrap().entry(format!("name(depth{depth}):names")).or_insert(0) = names.len() as u64;
+    *env.stats.counters.lock().unwrap().entry(format!("name(depth{depth},menu{menu}):names")).or_insert(0) = names.len() as u64;
     // vacuity: the compressed kinds must actually be compressed
     for (i, r) in reps.iter().enumerate() {
         if let Rep::Parsed(p) = r {
             let k = &specs[i].1.kind;
-            env.stats.count(&format!("name(depth{depth}):{}:{}", k.trim_end_matches(char::is_numeric), if p.is_compressed() { "is_compressed" } else { "flat-slice-path" }));
+            env.stats.count(&format!("name(depth{depth},menu{menu}):{}:{}", k.trim_end_matches(char::is_numeric), if p.is_compressed() { "is_compressed" } else { "flat-slice-path" }));
         }
     }
     // unary: hash inputs (Name and ParsedName only; Chain has no Hash)
@@ -1078,7 +1088,7 @@ fn dom_names(env: &Env, depth: usize, rep_triples: bool, dom_id: u64, only: Opti
         env.stats.sample(12, || json!({"domain": dom, "a": desc(n / 3), "b": desc(n / 2), "name_eq": rel.e(n / 3, n / 2), "name_cmp": ord_s(rel.c(n / 3, n / 2))}));
     }
     let cls = |i: usize, j: usize| if specs[i].1.contiguous && specs[j].1.contiguous { "both-contiguous-in-memory".to_string() } else { "not-both-contiguous-in-memory".to_string() };
-    let dn = format!("name(depth{depth})");
+    let dn = format!("name(depth{depth},menu{menu})");
     check_laws(env, &LawCfg { dom: "name", ord_name: "name_cmp", with_eq: true, triples: rep_triples, desc: &desc, pair_class: &cls, hash_class: &cls, only_prefix: None, tag: &dn, sig_dom: "name" }, &rel, None);
     // all triples of flat names
     let flat_idx: Vec<usize> = (0..n).filter(|&i| specs[i].1.flat).collect();
@@ -1286,11 +1296,18 @@ struct RdObs {
     pp: Option<(bool, Option<i8>, i8, i8)>,
 }
 
+/// Class of a pair for the ==/cmp/hash coherence laws: with a label- or
+/// name-level defect reported, its consequences are not reported again.
 fn rd_pair_class(m: &[RMeta], i: usize, j: usize) -> String {
     let (a, b) = (&m[i], &m[j]);
     if NAME_LEVEL_BROKEN.load(AO::Relaxed) && a.rtype == b.rtype && !a.names.is_empty() && !a.unknown_variant && !b.unknown_variant {
         return format!("explained:label-or-name-level-defect:{}", a.mnemonic);
     }
+    rd_pair_class_raw(m, i, j)
+}
+
+fn rd_pair_class_raw(m: &[RMeta], i: usize, j: usize) -> String {
+    let (a, b) = (&m[i], &m[j]);
     if a.rtype != b.rtype {
         "cross-type".into()
     } else if a.unknown_variant != b.unknown_variant {
@@ -1395,6 +1412,7 @@ where
                 let (a, b) = (&metas[i], &metas[j]);
                 if a.rtype == b.rtype {
                     // canonical order == octet order of the canonical forms
+                    let pc = rd_pair_class_raw(metas, i, j);
                     let want: Vec<i8> = a.canon.iter().flat_map(|ca| b.canon.iter().map(move |cb| sgn(ca.cmp(cb)))).collect();
                     let own = sgn(canon_lib[i].cmp(&canon_lib[j]));
                     if !want.contains(&o.can) {
@@ -1413,6 +1431,7 @@ where
                         );
                     }
                     *local.entry(format!("{dom}:canonical-outcome:{}", ord_s(o.can))).or_insert(0) += 1;
+                    let pc = rd_pair_class(metas, i, j);
                     // equality does not depend on the case of embedded names
                     if a.unknown_variant == b.unknown_variant && a.name_lc == b.name_lc {
                         *local.entry(format!("{dom}:must-be-equal-pairs")).or_insert(0) += 1;
@@ -1448,7 +1467,8 @@ where
     let tcls = |a: usize, b: usize| rd_pair_class(metas, typed[a], typed[b]);
     let th: Vec<Hs> = typed.iter().map(|&i| hashes[i].clone()).collect();
     check_laws(env, &LawCfg { dom, ord_name: "cmp", with_eq: true, triples: true, desc: &tdesc, pair_class: &tcls, hash_class: &tcls, only_prefix: None, tag: dom, sig_dom: "rdata" }, &sub_rel(&rel, &typed), Some(&th));
-    check_laws(env, &LawCfg { dom, ord_name: "canonical_cmp", with_eq: false, triples: true, desc: &tdesc, pair_class: &tcls, hash_class: &tcls, only_prefix: None, tag: dom, sig_dom: "rdata" }, &sub_rel(&crel, &typed), None);
+    let tcls_raw = |a: usize, b: usize| rd_pair_class_raw(metas, typed[a], typed[b]);
+    check_laws(env, &LawCfg { dom, ord_name: "canonical_cmp", with_eq: false, triples: true, desc: &tdesc, pair_class: &tcls_raw, hash_class: &tcls_raw, only_prefix: None, tag: dom, sig_dom: "rdata" }, &sub_rel(&crel, &typed), None);
     if typed.len() < n {
         let tag = format!("{dom}+unknown-variants");
         check_laws(env, &LawCfg { dom, ord_name: "cmp", with_eq: true, triples: n <= 1600, desc: &desc, pair_class: &cls, hash_class: &cls, only_prefix: Some("unknown-variant"), tag: &tag, sig_dom: "rdata" }, &rel, Some(&hashes));
@@ -1777,7 +1797,7 @@ fn dom_records(env: &Env, only: Option<&[usize]>) {
 
 //------------ wide: per type, all pairs of the rgen quick menu (thorough) -------------------
 
-fn dom_wide(env: &Env, only_type: Option<(&str, Vec<u64>)>) {
+fn dom_wide(env: &Env, only_type: Option<(&str, Vec<u64>)>, max_values: usize) {
     let dom = "rdata-wide";
     for g in rgen::generators() {
         if let Some((t, _)) = &only_type {
@@ -1796,6 +1816,11 @@ fn dom_wide(env: &Env, only_type: Option<(&str, Vec<u64>)>) {
         }
         let n = vals.len();
         let t = g.mnemonic;
+        if n > max_values {
+            // quick tier: the types with large menu products are left to the thorough tier
+            env.stats.count_n(&format!("{dom}:skipped-in-this-tier(values):{t}"), n as u64);
+            continue;
+        }
         let metas: Vec<RMeta> = vals.iter().map(|v| meta_of(v, "quick-menu", v.wire.clone(), false)).collect();
         let desc = |i: usize| json!({"type": t, "rtype": vals[i].rtype, "candidate": vals[i].index, "value": vals[i].desc, "rdata_len": vals[i].wire.len(), "rdata_head": hex(&vals[i].wire[..vals[i].wire.len().min(48)])});
         // unary
@@ -1948,14 +1973,15 @@ fn main() {
             "charstr" => dom_charstrs(&env, Some(&idx)),
             "name" | "name-flat" => {
                 let depth = case["items"][0]["depth"].as_u64().unwrap_or(3) as usize;
-                dom_names(&env, depth, true, 3, Some(&idx))
+                let menu = case["items"][0]["menu"].as_u64().unwrap_or(5) as usize;
+                dom_names(&env, depth, menu, true, 3, Some(&idx))
             }
             "rdata" => dom_rdata(&env, Some(&idx), false),
             "zrdata" => dom_rdata(&env, Some(&idx), true),
             "record" => dom_records(&env, Some(&idx)),
             "rdata-wide" => {
                 let c: Vec<u64> = case["candidates"].as_array().map(|a| a.iter().filter_map(|x| x.as_u64()).collect()).unwrap_or_default();
-                dom_wide(&env, Some((case["type"].as_str().unwrap_or(""), c)))
+                dom_wide(&env, Some((case["type"].as_str().unwrap_or(""), c)), usize::MAX)
             }
             d => {
                 eprintln!("MACHINERY: unknown domain {d:?} in replay file");
@@ -1965,16 +1991,16 @@ fn main() {
     } else {
         phase("labels", &mut || dom_labels(&env, None));
         phase("charstrs", &mut || dom_charstrs(&env, None));
-        phase("names-depth3", &mut || dom_names(&env, 3, true, 3, None));
+        phase("names-depth3", &mut || dom_names(&env, 3, 5, true, 3, None));
+        phase("names-depth2-extended-menu", &mut || dom_names(&env, 2, 7, true, 9, None));
         if !quick {
-            phase("names-depth4", &mut || dom_names(&env, 4, false, 4, None));
+            phase("names-depth4", &mut || dom_names(&env, 4, 5, false, 4, None));
+            phase("names-depth3-extended-menu", &mut || dom_names(&env, 3, 7, false, 10, None));
         }
         phase("rdata", &mut || dom_rdata(&env, None, false));
         phase("zrdata", &mut || dom_rdata(&env, None, true));
         phase("records", &mut || dom_records(&env, None));
-        if !quick {
-            phase("rdata-wide", &mut || dom_wide(&env, None));
-        }
+        phase("rdata-wide", &mut || dom_wide(&env, None, if quick { 1000 } else { usize::MAX }));
     }
     let _ = t0;
     let counters = env.stats.counters_json();
@@ -1990,8 +2016,10 @@ fn main() {
                 "label_and_charstr_max_len": if quick { 2 } else { 3 },
                 "name_depth": if quick { 3 } else { 4 },
                 "name_label_menu": ["a", "A", "b", "a.b (one label)", "ab"],
+                "name_label_menu_extended": ["a", "A", "b", "a.b (one label)", "ab", "a\\001b (one label)", "\\001a (one label)"],
+                "name_depth_extended_menu": if quick { 2 } else { 3 },
                 "owners": ["a.", "A.", "b.a."], "classes": [1, 3], "ttls": [1, 3600],
-                "rdata": if quick { "rgen compact values + name-case twins + letter-case twins + Unknown-variant twins; records over compact values" } else { "as quick, records also over the twins; plus per type all ordered pairs of the rgen quick menu" },
+                "rdata": if quick { "rgen compact values + name-case twins + letter-case twins + Unknown-variant twins; records over compact values; plus per type all ordered pairs of the rgen quick-menu product for the types with at most 1000 values" } else { "as quick, records also over the twins; rgen quick-menu product for every type (53 564 values)" },
             },
             "phase_seconds": phases.iter().map(|(k, v)| json!({"phase": k, "s": v})).collect::<Vec<_>>(),
             "counters": counters,
